@@ -1,5 +1,5 @@
 # Human-written text for MANIFEST.json entries (see bin/genmanifest.py).
-HOOK_COMMITS = ["efc17db"]
+HOOK_COMMITS = ["efc17db", "9ef71b0"]
 NOTES = "Property-based testing and fuzzing only; see DESIGN.md. Properties not yet claimed are listed under not_applicable with the reason 'check not built yet' until their check lands."
 
 ALL = ["C%02d" % i for i in range(1, 21)]
@@ -100,6 +100,30 @@ META = {
         design_ref="DESIGN.md §4 C16",
         level_note="Success of a valid request is not demanded (the statement does not promise it; the sealing step may legitimately fail while it drops an invalid tip) - only that invalid requests change nothing, sealing needs the receiver, reads need the signed current challenge. Challenge expiry is not advanced.",
         technique="stateful model-based property testing (rapid) against a reference state machine",
+    ),
+    "C11": dict(
+        level_text="A virtual network of real gossip nodes (real ledgers, awaiting caches and duplicate-suppression memories) whose peer tables hold harness stubs; the harness is the scheduler. Every connected labelled graph on 2-4 nodes x every origin x {vertex, awaiting transaction, propose-then-confirm flow} with depth-first enumeration of delivery orders (capped per graph/origin in quick), duplicated deliveries, items with broken signatures, and random graphs on 5-6 nodes.",
+        design_ref="DESIGN.md §4 C11, §3.3",
+        level_note="Message loss and the 20 s suppression window are outside the fault model. Exhaustive flag is true only when no enumeration hit its cap.",
+        technique="property-based testing with harness-owned message scheduling: exhaustive small-scope schedule enumeration + rapid schedules, invariants over the recorded message history",
+    ),
+    "C12": dict(
+        level_text="C11's network with one node replaced by an adversarial relay played by the harness, assembling gossiper lists from garbage, entries harvested from other items, forged and sybil entries; all relay positions on 3-4 node graphs plus sampled 5-node graphs, random delivery orders.",
+        design_ref="DESIGN.md §4 C12",
+        level_note="The adversary forwards intact items; amplification (an extra forward burst at the origin) is observed and not judged, as the statement is about suppression.",
+        technique="property-based testing with an adversarial relay model and harness-owned scheduling",
+    ),
+    "C15": dict(
+        level_text="Product of per-field shape classes for every request type of the three services (hundreds of thousands of requests per run) plus vertices handed to the real sync / missing-parent clients by a malicious in-memory peer, each under recover with ledger snapshot, awaiting lists and peer table compared on every error return; random combinations on top.",
+        design_ref="DESIGN.md §4 C15",
+        level_note="In-process calls on the real service objects; coverage-guided native fuzzing of serialized requests is not part of the quick/thorough commands (see DESIGN.md). One known finding keyed by its state-change pattern.",
+        technique="property-based testing: exhaustive shape-class product + rapid, no-panic and unchanged-on-rejection oracles",
+    ),
+    "C18": dict(
+        level_text="Randomized concurrent workloads over the ledger API, the retry/truncate triggers, the gossip handler and the awaiting cache on a -race build, long enough for the 2 s retry tick to fall inside; the detector's reports are parsed and attributed to repository function pairs.",
+        design_ref="DESIGN.md §4 C18",
+        level_note="Sampling of interleavings: a green run means no race executed in the sampled schedules. Workload plans are generated by rapid (Example) but executed outside rapid.Check, because a detected race marks testing.T failed and aborts the library.",
+        technique="randomized concurrency testing with the Go race detector as oracle (rapid-generated workloads)",
     ),
 }
 
